@@ -343,6 +343,58 @@ def algoptAnswer (ws : List String) : String :=
     | _, _, _ => "bad-line"
   | _ => "bad-line"
 
+/-- token language of `dceuse` / `dceloop` -> use-site statements -/
+partial def parseUS : List String → Option (List US)
+  | [] => some []
+  | "b" :: x :: _ :: a :: b :: r =>
+    match operandOf a, operandOf b with
+    | some a, some b => (parseUS r).map (US.bin (nameOf x) a b :: ·)
+    | _, _ => none
+  | "ip" :: x :: a :: r => (operandOf a).bind fun a => (parseUS r).map (US.un (nameOf x) a :: ·)
+  | "nt" :: x :: a :: r => (operandOf a).bind fun a => (parseUS r).map (US.un (nameOf x) a :: ·)
+  | "cs" :: x :: a :: r => (operandOf a).bind fun a => (parseUS r).map (US.un (nameOf x) a :: ·)
+  | "cl" :: x :: a :: r => (operandOf a).bind fun a => (parseUS r).map (US.clo (nameOf x) a :: ·)
+  | "ix" :: x :: a :: _ :: r => (operandOf a).bind fun a => (parseUS r).map (US.idx (nameOf x) a :: ·)
+  | "st" :: x :: n :: r =>
+    let n := n.toNat!
+    match (r.take n).mapM operandOf with
+    | some fs => (parseUS (r.drop n)).map (US.strct (nameOf x) fs :: ·)
+    | none => none
+  | "cr" :: c :: n :: r =>
+    let n := n.toNat!
+    match (r.take n).mapM operandOf with
+    | some args => (parseUS (r.drop n)).map (US.call none args (if c == "_" then none else some (nameOf c)) :: ·)
+    | none => none
+  | "ic" :: v :: c :: n :: r =>
+    let n := n.toNat!
+    match (r.take n).mapM operandOf with
+    | some args => (parseUS (r.drop n)).map (US.call (some (nameOf v)) args (if c == "_" then none else some (nameOf c)) :: ·)
+    | none => none
+  | "p" :: a :: r => (operandOf a).bind fun a => (parseUS r).map (US.call none [a] none :: ·)
+  | "k" :: a :: r => (operandOf a).bind fun a => (parseUS r).map (US.brk a :: ·)
+  | _ => none
+
+/-- `dceuse RET <block>`: names of the value-defining statements DCE keeps -/
+def dceuseAnswer (ws : List String) : String :=
+  match ws with
+  | ret :: rest =>
+    match operandOf ret, parseUS rest with
+    | some r, some p =>
+      let kept := (dceU true p r.vars).1.filterMap fun s => match s with
+        | .call _ _ _ | .brk _ => none
+        | s => s.defn.map fun x => "v" ++ pad2 x
+      "kept " ++ (if kept.isEmpty then "-" else ",".intercalate kept)
+    | _, _ => "bad-line"
+  | _ => "bad-line"
+
+/-- `dceloop <body>`: loop variables v00 (counter), v01 (the probed variable, next value v09); does v01 stay? -/
+def dceloopAnswer (ws : List String) : String :=
+  match parseUS ws with
+  | some body =>
+    let lvs : List (Nat × Operand × Operand) := [(0, .lit 0, .var 8), (1, .var 7, .var 9)]
+    if (keptLoopVars true lvs body).contains 1 then "kept" else "dropped"
+  | none => "bad-line"
+
 def licmAnswer (ws : List String) : String :=
   match parseS ws with
   | some p =>
@@ -410,6 +462,8 @@ def step (_ : Unit) (line : String) : Unit × String :=
     | "licm" :: rest => licmAnswer rest
     | "licmk" :: rest => licmkAnswer rest
     | "ivuse" :: rest => ivuseAnswer rest
+    | "dceuse" :: rest => dceuseAnswer rest
+    | "dceloop" :: rest => dceloopAnswer rest
     | "algopt" :: rest => algoptAnswer rest
     | "lvn" :: rest => lvnAnswer rest
     | "lvnw" :: rest => lvnwAnswer rest
